@@ -307,7 +307,7 @@ PROPS["C16"] = dict(
 PROPS["C02"] = dict(
     title="Untargeted content passes through a build unchanged (frame / type fidelity)",
     modules=["Kust.Props.C02", "Kust.Props.C02b", "Kust.Props.C14d", "Kust.Props.C02c"],
-    theorems=["Kust.C02.no_options_identity_kept", "Kust.C02.options_are_independent", "Kust.C02.namespace_kept", "Kust.C02.previous_id_recorded", "Kust.C02.smpatch_keeps_alignment",
+    theorems=["Kust.C02.no_options_identity_kept", "Kust.C02.options_are_independent", "Kust.C02.namespace_kept", "Kust.C02.previous_id_recorded", "Kust.C02.smpatch_keeps_alignment", "Kust.C02.Witness.restored_numeric_name_unquoted",
               "Kust.C02.text_without_dollar_untouched", "Kust.C02.expand_no_dollar", "Kust.C14.filter_denotes",
               "Kust.C02.filter_id", "Kust.C02.gvk_mismatch_untouched", "Kust.C02.setter_keeps_string", "Kust.C02.setter_leaves_safe_plain",
               "Kust.C02.set_entry_new", "Kust.C02.footprints", "Kust.C02.tables_paths_wellformed", "Kust.C02.pathGet_plain",
